@@ -19,6 +19,7 @@ import IxpeVerif.Model.NdArray
 import IxpeVerif.Model.HistIO
 import IxpeVerif.Model.Columns
 import IxpeVerif.Gen.Specs
+import IxpeVerif.Gen.Masks
 /-! Dispatcher of the hand-written models for the line-protocol driver.  Integers travel in decimal. -/
 namespace Driver
 
@@ -270,6 +271,14 @@ def step (ws : List String) : String :=
     | .error .simpleType => "err simpleType"
     | .error .simpleIntent => "err simpleIntent"
     | .error .grayType => "err grayType"
+  -- gmask time|phase <min|N> <max|N> <invert> <n> values…  -> the *generated* selection masks (translator/masks.py) on order-preserving keys
+  | "gmask" :: kind :: lo :: hi :: inv :: rest =>
+    let (vs, _) := takeN rest
+    let f := if kind == "time" then key64 else k32
+    let m := (ints vs).map fun v =>
+      if kind == "time" then Gen.time_selection_mask (f v) (optOf f lo) (optOf f hi) (inv == "1")
+      else Gen.phase_selection_mask (f v) (optOf f lo) (optOf f hi) (inv == "1")
+    " ".intercalate (m.map fun b => if b then "1" else "0")
   -- C19 --------------------------------------------------------------------------------------------------------
   -- date <met µs>  -> DATE-OBS string of that MET with the generated epoch constant
   | ["date", us] => (Cal.metToStamp Gen.missionStartUnixTime us.toInt!).format
